@@ -91,6 +91,8 @@ def spell_cp(rng, cp, strict=True):
 
 def gen_string(rng, maxlen=12):
     n = rng.choice([0, 0, 1, 1, 2, 3, 5, rng.randrange(0, maxlen + 1)])
+    if rng.random() < 0.02:
+        n = rng.choice([62, 63, 64, 65, 127, 128, 255, 256, 257, 1023, 1024, 1025, 4095, 4096, 4097])     # around typical buffer sizes
     cps = [rand_cp(rng) for _ in range(n)]
     lit = b'"' + b''.join(spell_cp(rng, cp) for cp in cps) + b'"'
     val = ''.join(chr(cp) for cp in cps).encode('utf-8')
